@@ -25,7 +25,7 @@ def write_parameters(d, names, pad=True, extra_cols=2, values=None):
     t.write(os.path.join(d, 'parameters.fits'))
 
 
-def sed_object(name, wav, aps, val, unc, order, flux_unit='mJy', distance_kpc=1.0):
+def sed_object(name, wav, aps, val, unc, order, flux_unit='mJy', distance_kpc=1.0, ap_unit='au'):
     """SED object with the spectral axis supplied in increasing ('asc') or decreasing wavelength"""
     from astropy import units as u
     from sedfitter.sed import SED
@@ -38,7 +38,7 @@ def sed_object(name, wav, aps, val, unc, order, flux_unit='mJy', distance_kpc=1.
     s.wav = np.array([wav[i] for i in idx], dtype=float) * u.micron
     s.nu = s.wav.to(u.Hz, equivalencies=u.spectral())
     na = 1 if aps is None else len(aps)
-    s.apertures = None if aps is None else np.array(aps, dtype=float) * u.au
+    s.apertures = None if aps is None else (np.array(aps, dtype=float) * u.au).to(getattr(u, ap_unit))
     if flux_unit == 'nufnu':
         # the same SED held as nu F_nu in erg/cm2/s (the storage of the original model packages); val/unc are in mJy
         fac = (s.nu.to(u.Hz).value * 1e-26)[np.newaxis, :]
@@ -89,7 +89,7 @@ def write_sed_raw(path, name, wav, aps, val, unc, order, legacy_units=True, flux
 
 
 def build_perfile(d, names, wav, aps, val, unc, stored=None, fnames=None, writer='lib', aperture_dependent=None,
-                  logd_step=0.02, pad=True, par_values=None):
+                  logd_step=0.02, pad=True, par_values=None, ap_unit='au'):
     """per-file package: models.conf, seds/<fname>_sed.fits, parameters.fits (rows in `names` order)"""
     os.makedirs(os.path.join(d, 'seds'))
     apdep = (aps is not None) if aperture_dependent is None else aperture_dependent
@@ -99,14 +99,14 @@ def build_perfile(d, names, wav, aps, val, unc, stored=None, fnames=None, writer
         stem = fnames[m] if fnames else nm
         p = os.path.join(d, 'seds', stem + '_sed.fits')
         if writer == 'lib':
-            sed_object(nm, wav, aps, lambda a, w: val(m, a, w), lambda a, w: unc(m, a, w), order).write(p)
+            sed_object(nm, wav, aps, lambda a, w: val(m, a, w), lambda a, w: unc(m, a, w), order, ap_unit=ap_unit).write(p)
         else:
             write_sed_raw(p, nm, wav, aps, lambda a, w: val(m, a, w), lambda a, w: unc(m, a, w), order,
                           legacy_units=(writer == 'raw_legacy'))
     write_parameters(d, names, pad=pad, values=par_values)
 
 
-def cube_object(names, wav, aps, val, unc, order, with_unc=True, flux_unit='mJy', distance_kpc=1.0):
+def cube_object(names, wav, aps, val, unc, order, with_unc=True, flux_unit='mJy', distance_kpc=1.0, ap_unit='au'):
     from astropy import units as u
     from sedfitter.sed import SEDCube
     c = SEDCube()
@@ -117,7 +117,7 @@ def cube_object(names, wav, aps, val, unc, order, with_unc=True, flux_unit='mJy'
         idx = idx[::-1]
     c.wav = np.array([wav[i] for i in idx], dtype=float) * u.micron
     na = 1 if aps is None else len(aps)
-    c.apertures = None if aps is None else np.array(aps, dtype=float) * u.au
+    c.apertures = None if aps is None else (np.array(aps, dtype=float) * u.au).to(getattr(u, ap_unit))
     unit = u.Unit(flux_unit)
     c.val = np.array([[[val(m, a, w) for w in idx] for a in range(na)] for m in range(len(names))], dtype=float) * unit
     if with_unc:
@@ -126,9 +126,9 @@ def cube_object(names, wav, aps, val, unc, order, with_unc=True, flux_unit='mJy'
 
 
 def build_cube(d, names, wav, aps, val, unc, order='desc', aperture_dependent=None, logd_step=0.02, pad=False, par_values=None,
-               table_names=None, flux_unit='mJy'):
+               table_names=None, flux_unit='mJy', ap_unit='au'):
     """cube package: models.conf (version 2), flux.fits, parameters.fits"""
     apdep = (aps is not None) if aperture_dependent is None else aperture_dependent
     fw.write_conf(d, aperture_dependent=apdep, logd_step=logd_step, version=2)
-    cube_object(names, wav, aps, val, unc, order, flux_unit=flux_unit).write(os.path.join(d, 'flux.fits'))
+    cube_object(names, wav, aps, val, unc, order, flux_unit=flux_unit, ap_unit=ap_unit).write(os.path.join(d, 'flux.fits'))
     write_parameters(d, table_names or names, pad=pad, values=par_values)
